@@ -74,25 +74,38 @@ def _skip(
     rules: Mapping[str, Rule],
     subs: list[str],
     seen: frozenset[str] = frozenset(),
+    done: set[str] | None = None,
 ) -> SkipUntil | None:
+    if done is None:
+        done = set()  # Rules whose strings are in `subs` already.
+
     if isinstance(expr, Group):
         expr = expr.expression
 
     if isinstance(expr, Choice):
         for ex in expr.expressions:
-            inlined_subs = _skip(ex, rules, subs, seen)
+            inlined_subs = _skip(ex, rules, subs, seen, done)
             if not inlined_subs:
                 return None
         return SkipUntil(subs)
 
     if isinstance(expr, String):
-        subs.append(expr.value)
+        if expr.value not in subs:
+            subs.append(expr.value)
         return SkipUntil(subs)
 
     if isinstance(expr, Identifier):
+        if expr.value in done:
+            # Expanding a rule once per reference takes exponential time for
+            # rules like `a = { b | b }`, `b = { c | c }`, ...
+            return SkipUntil(subs)
+
         rule = rules.get(expr.value)
         if rule and expr.value not in seen:
             # A rule that refers to itself is not a choice of strings.
-            return _skip(rule.expression, rules, subs, seen | {expr.value})
+            new_expr = _skip(rule.expression, rules, subs, seen | {expr.value}, done)
+            if new_expr:
+                done.add(expr.value)
+            return new_expr
 
     return None
